@@ -3,10 +3,10 @@
    cfg ranges over ALL grammar tables (keyword aliases, operator levels in any order, residue tables);
    gen_cfg is the table regenerated from mdtraj/core/selection.py on every run, ref_cfg the hand-kept copy of
    the table as found. *)
-From Coq Require Import List String ZArith Bool Sorted.
+From Coq Require Import List String ZArith Bool Sorted Permutation.
 Require Import MD.Select.Syntax MD.Select.Regex MD.Select.Model MD.Select.Types MD.Select.Run MD.Select.Layout
                MD.Select.ParsePrint MD.Select.Proofs MD.Select.Malformed MD.Select.Reference MD.Select.Precedence
-               MD.Select.RegexProofs MD.Select.LexProofs MD.Select.Sugar MD.Select.Typing
+               MD.Select.RegexProofs MD.Select.LexProofs MD.Select.Sugar MD.Select.Typing MD.Select.Order MD.Select.OrderProofs
                MD.Gen.SelectTables MD.Select.GenChecks.
 Import ListNotations.
 
@@ -92,6 +92,34 @@ Example select_sorted_nonvacuous :
   select_str gen_cfg false demo_atoms "name CA C or water"%string = Sel [1%Z; 2%Z; 3%Z; 4%Z].
 Proof. exact (conj demo_atoms_sorted demo_select). Qed.
 Print Assumptions select_sorted_nonvacuous.
+
+(* ---- the order of the result without the hypothesis that Topology.atoms walks the atoms in index order (it does not
+   after Topology.add_atom on an earlier residue).  Two-variant rule: as found the result is then not increasing
+   (witness: GLY + HOH with an OXT added to the GLY afterwards, "element O" -> [3; 5; 4]); with the minimal repair
+   (the index list sorted) the result is strictly increasing for EVERY order of the atom list, is a rearrangement of
+   the as-found result, errors and rejections are unchanged, and nothing changes where the hypothesis holds *)
+Theorem select_sorted_fix : forall cfg strict atoms s,
+  NoDup (map a_index atoms) ->
+  match select_str cfg strict atoms s with
+  | Sel l0 => exists l, select_str_sorted cfg strict atoms s = Sel l /\ StronglySorted Z.lt l /\ Permutation l0 l
+                        /\ incl l (map a_index atoms)
+  | o => select_str_sorted cfg strict atoms s = o
+  end.
+Proof. exact OrderProofs.select_sorted_fix. Qed.
+Print Assumptions select_sorted_fix.
+
+Theorem select_sorted_fix_conservative : forall cfg strict atoms s,
+  StronglySorted Z.lt (map a_index atoms) ->
+  select_str_sorted cfg strict atoms s = select_str cfg strict atoms s.
+Proof. exact OrderProofs.select_sorted_fix_conservative. Qed.
+Print Assumptions select_sorted_fix_conservative.
+
+Theorem select_sorted_cur_refuted :
+  NoDup (map a_index patched_atoms) /\
+  exists l, select_str ref_cfg false patched_atoms "element O"%string = Sel l /\ ~ StronglySorted Z.lt l /\
+            select_str_sorted ref_cfg false patched_atoms "element O"%string = Sel [3%Z; 4%Z; 5%Z].
+Proof. exact OrderProofs.select_sorted_cur_refuted. Qed.
+Print Assumptions select_sorted_cur_refuted.
 
 (* select = the list comprehension of the generated source (same predicate, same atom order); in the model the
    two are one AST, the implementation side is checked by the run (eval(select_expression(s)) == select(s)) *)
